@@ -498,6 +498,16 @@ func keyPool() []config {
 	return out
 }
 
+// longKeyPool: pairwise different settings whose secret||salt agree in their first 64 (resp. 100) bytes.
+func longKeyPool() []config {
+	l64 := strings.Repeat("0123456789abcdef", 4)
+	l100 := strings.Repeat("pass phrase ", 9)[:100]
+	return []config{
+		{Secret: l64, Salt: "salt1"}, {Secret: l64, Salt: "salt2"}, {Secret: l64, Salt: ""}, {Secret: l64 + "X", Salt: "salt1"},
+		{Secret: l100 + "tail-one", Salt: "salt1"}, {Secret: l100 + "tail-two", Salt: "salt1"}, {Secret: l100 + "tail-one", Salt: "salt2"},
+	}
+}
+
 func run(c *fw.Ctx) {
 	rand.Reader = &counterReader{}
 	cfgs := configs(c.Thorough())
@@ -583,6 +593,20 @@ func run(c *fw.Ctx) {
 				kc.Secret, kc.Salt = k.Secret, k.Salt
 				for _, f := range wrongKey(kc, pool[len(pool)-2:], plains[2]) {
 					report(f)
+				}
+			}
+			// long key material (a 256-bit key in hex, a pass phrase): settings that differ only beyond
+			// byte 64 / 100 of secret||salt - another salt, no salt, another tail of the secret
+			if cfg.Secret == "alpha" && cfg.Salt == "salt1" {
+				lp := longKeyPool()
+				c.Count("wrongkey_cases", int64(len(lp)*len(lp)))
+				c.R.Evaluations += int64(2 * len(lp) * len(lp))
+				for _, k := range lp {
+					kc := cfg
+					kc.Secret, kc.Salt = k.Secret, k.Salt
+					for _, f := range wrongKey(kc, lp, plains[2]) {
+						report(f)
+					}
 				}
 			}
 		}
@@ -765,7 +789,7 @@ func replay(w json.RawMessage) (*fw.Violation, error) {
 
 func init() {
 	fw.Register(&fw.Check{ID: "C05", Level: "fault_enumeration",
-		Rule: "configurations = cipher{raw AES-GCM, tagged} x base{memory, disk} x secret{alpha,beta,''} x salt{salt1,salt2,''} x host-binding{off,on}; plaintexts of length {0,1,16,17,4096,70000,(thorough: 15,33,140001)}; write path {WriteFile, Writer 1/3 chunks} x previous content {absent, shorter, longer} x read path {ReadFile, Reader buf 1/7/4096}, every case also across a child view (parent writes / child reads, child writes / parent and an independent same-settings filespace read); every other (secret,salt) of the pool plus one concatenation-colliding pair; two filespaces built from one caller-owned secret buffer with spare capacity and different salts, and the caller wiping its buffers afterwards; EVERY truncation length 0..N-1 (also of the 70 KB / 140 KB files on the whole-file paths; the other paths of long files: every length near both ends, every 97th between) and EVERY single-byte corruption (N positions x 255 values for short files; 3 values and strided interior positions for files > 300 bytes) of the stored bytes, each read on a fresh base; two filespaces (different secrets) x two files each written in alternation over all plaintext pairs x write-path pairs; name-space ops in lock-step with the tree model; plus 2-3 filespaces with different (and equal) secrets used from concurrent goroutines (write then read own file, then try every other tenant's secret on it) under every schedule with <= 2 (quick) / 3 (thorough) preemptions, with the race oracle on the encryptfs packages. distinct = cases, all non-trivial (each runs the real cipher)",
+		Rule: "configurations = cipher{raw AES-GCM, tagged} x base{memory, disk} x secret{alpha,beta,''} x salt{salt1,salt2,''} x host-binding{off,on}; plaintexts of length {0,1,16,17,4096,70000,(thorough: 15,33,140001)}; write path {WriteFile, Writer 1/3 chunks} x previous content {absent, shorter, longer} x read path {ReadFile, Reader buf 1/7/4096}, every case also across a child view (parent writes / child reads, child writes / parent and an independent same-settings filespace read); every other (secret,salt) of the pool plus one concatenation-colliding pair, and 7 settings with long key material (64- and 100-byte common prefixes of secret||salt; other salt, no salt, other tail) read pairwise; two filespaces built from one caller-owned secret buffer with spare capacity and different salts, and the caller wiping its buffers afterwards; EVERY truncation length 0..N-1 (also of the 70 KB / 140 KB files on the whole-file paths; the other paths of long files: every length near both ends, every 97th between) and EVERY single-byte corruption (N positions x 255 values for short files; 3 values and strided interior positions for files > 300 bytes) of the stored bytes, each read on a fresh base; two filespaces (different secrets) x two files each written in alternation over all plaintext pairs x write-path pairs; name-space ops in lock-step with the tree model; plus 2-3 filespaces with different (and equal) secrets used from concurrent goroutines (write then read own file, then try every other tenant's secret on it) under every schedule with <= 2 (quick) / 3 (thorough) preemptions, with the race oracle on the encryptfs packages. distinct = cases, all non-trivial (each runs the real cipher)",
 		Run: run, Replay: replay,
 		Assumptions: []string{"crypto/rand.Reader is replaced by a deterministic never-repeating stream (nonce freshness stays observable)", "cryptographic strength is out of scope; host binding is exercised but a binding mismatch is not required to fail (the statement does not demand it)", "secrecy = stored bytes do not contain the plaintext (>= 8 bytes) nor its first 16 bytes"}})
 }
